@@ -1,5 +1,6 @@
 import CovfieModel.Model.Interp
 import CovfieModel.Model.Layout
+import CovfieModel.Model.LinearW
 /-! Judge for C03 (`lincheck`): one verdict per lookup of `linear<[clamp<]strided<sizeN, array<T M>>[>], C N>`.
 
   `F vprec M clamp s1..sN | cells`            sets the field (cells = bit patterns, row-major, M per cell) → `set <n>`
@@ -133,6 +134,15 @@ def linCheck (f : Fld) (cprec : Nat) (coord impl : List Nat) (idx : Option (List
   let b := if N = 1 then "1" else if N = 2 then "2" else if N = 3 then "3" else "g"
   return (if bad then "BAD" else "ok") ++ s!" v={vs} lat={lat} hull={hull} nb={nb} br={b}{br}" ++ detail
 
+/-- corpus witness: the width-faithful interpolator (`Model/LinearW.lean`) over values 10,20,30,40 beneath a clamp [0,3],
+    index type of `w` bits, coordinate given as an f32/f64 bit pattern; prints the model's value, or `ub` -/
+def widthWitness (w prec bits : Nat) : String :=
+  let bk : Backend := clampL [.fin 0] [.fin 3] (arrayB [[.fin 10], [.fin 20], [.fin 30], [.fin 40]])
+  match linearLW w bk [dec prec bits] with
+  | .ok ([.fin q], t) => s!"ok {q.num}/{q.den} reads={t}"
+  | .ok _ => "ok ?"
+  | .error e => s!"ub {repr e}"
+
 partial def loop (h : IO.FS.Stream) (out : IO.FS.Stream) (f : Fld) : IO Unit := do
   let line ← h.getLine
   if line.isEmpty then return ()
@@ -152,6 +162,10 @@ partial def loop (h : IO.FS.Stream) (out : IO.FS.Stream) (f : Fld) : IO Unit := 
     | some cp, [some c, some impl] => out.putStrLn (linCheck f cp c impl none); loop h out f
     | some cp, [some c, some impl, some idx] => out.putStrLn (linCheck f cp c impl (some idx)); loop h out f
     | _, _ => out.putStrLn "bad-op"; loop h out f
+  | ["W", w, prec, bits] =>
+    match w.toNat?, prec.toNat?, bits.toNat? with
+    | some w, some prec, some bits => out.putStrLn (widthWitness w prec bits); loop h out f
+    | _, _, _ => out.putStrLn "bad-op"; loop h out f
   | _ => out.putStrLn "bad-op"; loop h out f
 def main : IO Unit := do
   let out ← IO.getStdout
